@@ -1,3 +1,4 @@
+from copy import deepcopy
 import json
 from typing import IO, Any, Tuple, List
 
@@ -71,7 +72,8 @@ class AvroJSONDecoder:
         self._push()
         if isinstance(self._current, dict) and self._key is not None:
             if self._key not in self._current:
-                self._current = symbol.get_default()
+                # The value is consumed while it is read, so work on a copy
+                self._current = deepcopy(symbol.get_default())
             else:
                 # self._current = self._current.pop(self._key)
                 self._current = self._current[self._key]
@@ -212,7 +214,9 @@ class AvroJSONDecoder:
             # of the union field
             if self._key not in self._current:
                 self._current[self._key] = {
-                    alternative_symbol.labels[0]: alternative_symbol.get_default()
+                    alternative_symbol.labels[0]: deepcopy(
+                        alternative_symbol.get_default()
+                    )
                 }
 
             if self._current[self._key] is None:
